@@ -274,8 +274,12 @@ class Gen:
                 for x in ts:
                     if not isinstance(x, CustomState):
                         involved += [x.envelope.fock, x.envelope.polarization]
-            # known finding: Envelope.measure on a combined envelope (post-measurement states)
+            # known finding: Envelope.measure on a combined envelope (post-measurement states): only
+            # *which* subsystems are measured / reported is checked there (composite entry point)
             if any(self.in_combined_env(x) for x in involved if not getattr(x, "measured", False)):
+                if en == "ce" and not any(getattr(x, "measured", False) for x in involved) and self.focus in ("C18", "C05", "C13"):
+                    st["known_cell"] = True
+                    return st
                 return None
             # known finding: Envelope.measure on an uncombined envelope ignores its flags
             if en == "env" and (sep or not des):
@@ -551,6 +555,119 @@ class Gen:
         r.shuffle(out) if r.random() < 0.2 else None
         return out
 
+    def scenario(self, w):
+        """focus-specific opening: a short hand-written skeleton (with random parameters) that
+        reaches the layouts a property is most sensitive to; the random continuation follows"""
+        r = self.rng
+        f = self.focus
+        E = w.envs
+        H = 0 if w.handles else None
+        sid = w.sid
+        out = []
+
+        def members(hi):
+            return [x for x in w.handles[hi].state_objs]
+
+        def cplx_op(t):
+            s = w.subs[t]
+            if isinstance(s, Polarization):
+                return {"kind": "op", "targets": [t], "entry": "state", "gate": "U3", "params": {"phi": r.uniform(0.4, 2.5), "theta": r.uniform(0.5, 2.5), "omega": r.uniform(0.4, 2.5)}}
+            if isinstance(s, CustomState):
+                return {"kind": "op", "targets": [t], "entry": "state", "gate": "CustomCustom", "U": mj(rand_unitary(self.rs, s.dimensions))}
+            a, ph = r.uniform(0.3, 0.7), r.uniform(0.3, 2.8)
+            d = dims_of(s)
+            if (self.joint_dim(w) // max(d, 1)) * (d + 22) > self.CAP:
+                return {"kind": "op", "targets": [t], "entry": "state", "gate": "PhaseShift", "params": {"phi": ph}}
+            return {"kind": "op", "targets": [t], "entry": "state", "gate": "Displace", "params": {"alpha_re": a * math.cos(ph), "alpha_im": a * math.sin(ph)}}
+
+        if f in ("C04", "C05") and H is not None and len(members(0)) >= 2:
+            ts = r.sample(members(0), min(len(members(0)), r.choice([2, 3])))
+            T = [sid(x) for x in ts]
+            pols = [t for t in T if isinstance(w.subs[t], Polarization)]
+            out += [{"kind": "op", "targets": [t], "entry": "state", "gate": "RY", "params": {"theta": r.uniform(0.4, 2.6)}} for t in pols]
+            out.append({"kind": "struct", "what": "ce_combine", "h": 0, "targets": T})
+            if r.random() < 0.7:
+                out.append({"kind": "struct", "what": "expand", "entry": "ce", "h": 0, "targets": [T[0]]})
+            m = r.sample(T, r.choice([1, 1, 2]))
+            out.append({"kind": "measure", "targets": m, "entry": r.choice(["ce", "ce", "state"]), "h": 0, "sep": True, "destructive": r.random() < 0.4})
+            if out[-1]["entry"] == "state":
+                out[-1]["targets"] = m[:1]
+        elif f == "C08":
+            cands = [sid(x) for x in w.subs]
+            t = r.choice(cands)
+            out.append(cplx_op(t))
+            k = r.random()
+            if k < 0.5:
+                out += [{"kind": "struct", "what": "expand", "entry": "state", "targets": [t]}] * 1
+                out.append({"kind": "struct", "what": "expand", "entry": "state", "targets": [t]})
+                out.append({"kind": "struct", "what": "contract", "entry": "state", "targets": [t]})
+            elif H is not None:
+                others = [sid(x) for x in members(0) if sid(x) != t]
+                if others and t in [sid(x) for x in members(0)]:
+                    out.append({"kind": "struct", "what": "ce_combine", "h": 0, "targets": [t, r.choice(others)]})
+                    out.append({"kind": "struct", "what": "expand", "entry": "ce", "h": 0, "targets": [t]})
+                    out.append({"kind": "struct", "what": "set_contraction", "on": True})
+        elif f == "C09" and E:
+            e = E[0]
+            fs, ps = sid(e.fock), sid(e.polarization)
+            if e.fock.dimensions > 0 and e.fock.dimensions * 2 <= 8:
+                d = e.fock.dimensions * 2
+                out.append({"kind": "kraus", "targets": [fs, ps], "entry": "env", "ops": [mj(rand_unitary(self.rs, d))]})
+                t = r.choice([fs, ps])
+                dt = dims_of(w.subs[t])
+                out.append({"kind": "povm", "targets": [t], "entry": r.choice(["env", "state"]), "ops": [mj(K) for K in rand_kraus(self.rs, dt, 2)],
+                            "destructive": r.random() < 0.7, "partial": True})
+        elif f == "C11" and H is not None:
+            focks = [sid(x) for x in members(0) if isinstance(x, Fock)]
+            tot = sum(self.support(w.subs[t]) for t in focks[:2]) + 1 if len(focks) >= 2 else 99
+            rest = self.joint_dim(w) // max(1, dims_of(w.subs[focks[0]]) * dims_of(w.subs[focks[1]])) if len(focks) >= 2 else 99
+            if len(focks) >= 2 and tot <= 3 and rest * tot * tot <= 48:
+                a, b2 = focks[:2]
+                out.append({"kind": "op", "gate": "BS", "targets": [a, b2], "entry": "ce", "h": 0, "params": {"eta": math.pi / 4}})
+                if r.random() < 0.6:
+                    out.append({"kind": "struct", "what": "set_contraction", "on": False})
+                    out.append({"kind": "struct", "what": "expand", "entry": "ce", "h": 0, "targets": [a]})
+                out.append({"kind": "op", "targets": [r.choice([a, b2])], "entry": r.choice(["state", "ce"]), "h": 0, "gate": "PhaseShift", "params": {"phi": r.uniform(0.3, 2.8)}})
+                out.append({"kind": "op", "gate": "BS", "targets": [a, b2], "entry": "ce", "h": 0, "params": {"eta": math.pi / 4}})
+        elif f == "C13" and H is not None and len(members(0)) >= 4:
+            ms = r.sample(members(0), 4)
+            A, B = [sid(x) for x in ms[:2]], [sid(x) for x in ms[2:]]
+            out.append({"kind": "struct", "what": "ce_combine", "h": 0, "targets": A})
+            out.append({"kind": "struct", "what": "ce_combine", "h": 0, "targets": B})
+            out.append({"kind": "measure", "targets": A, "entry": "ce", "h": 0, "sep": True, "destructive": r.random() < 0.7})
+        elif f == "C17":
+            fs = [x for x in w.subs if isinstance(x, Fock) and isinstance(x.state, int) and x.state == 0]
+            if fs:
+                t = sid(r.choice(fs))
+                k = r.choice([0, 1, 2])
+                out += [{"kind": "struct", "what": "expand", "entry": "state", "targets": [t]}] * k
+                if k == 2:
+                    out.insert(0, {"kind": "struct", "what": "set_contraction", "on": False})
+                out.append({"kind": "op", "gate": "Annihilation", "targets": [t], "entry": r.choice(["state", "env"])})
+                out.append({"kind": "op", "gate": "Creation", "targets": [t], "entry": "state"})
+        elif f == "C18" and H is not None and len(E) >= 2:
+            # two Focks holding the same value, one of them inside a combined envelope / product space
+            i0, i1 = r.sample(range(len(E)), 2)
+            f0, f1 = sid(E[i0].fock), sid(E[i1].fock)
+            k = r.random()
+            if k < 0.5:
+                out.append({"kind": "struct", "what": "env_combine", "env": i0})
+            elif k < 0.8:
+                out.append({"kind": "struct", "what": "ce_combine", "h": 0, "targets": [f0, sid(E[i0].polarization)]})
+            order = [f0, f1] if r.random() < 0.7 else [f1, f0]
+            out.append({"kind": "measure", "targets": order, "entry": "ce", "h": 0, "sep": r.random() < 0.5, "destructive": r.random() < 0.4,
+                        **({"known_cell": True} if k < 0.5 else {})})
+        elif f == "C20" and H is not None and len(members(0)) >= 4:
+            ms = r.sample(members(0), 4)
+            A = [sid(x) for x in ms[:2]]
+            c1, c2 = sid(ms[2]), sid(ms[3])
+            out.append({"kind": "struct", "what": "ce_combine", "h": 0, "targets": A})
+            t = w.subs[c1]
+            if not (isinstance(t, Fock) and t.dimensions < 0):
+                out.append({"kind": "kraus", "targets": [c1], "entry": "state", "ops": [mj(K) for K in rand_kraus(self.rs, dims_of(t), 2)]})
+            out.append({"kind": "struct", "what": "ce_combine", "h": 0, "targets": [c1, c2]})
+        return out
+
     WEIGHTS = {
         "C01": dict(op1=8, opn=2, kraus=1, measure=0.5, struct=3, resize=0.5),
         "C02": dict(op1=3, opn=2, kraus=1, struct=7, trace_out=3),
@@ -565,6 +682,7 @@ class Gen:
         "C11": dict(op1=3, opn=8, struct=2),
         "C13": dict(op1=2, opn=2, kraus=1, measure=2, povm=1, struct=6),
         "C17": dict(op1=4, opn=2, kraus=1, struct=2, invalid=5, measure=1),
+        "C18": dict(op1=2, opn=1, measure=8, struct=4, kraus=0.5),
         "C20": dict(op1=4, opn=3, kraus=2, measure=2, povm=1, struct=4, trace_out=1, resize=1),
     }
 
